@@ -352,6 +352,14 @@ def run_(case, ctx):
                     check(requested.get((tuple(xy), c)) == names.index(name),
                           "error-names-unrequested-core",
                           "%r core %d under %s" % (xy, c, name), **opts)
+        # the message a user reads names the same cores as the attribute
+        import re
+        said = {((int(a), int(b)), int(c_)) for a, b, c_ in re.findall(
+            r"\((\d+), (\d+), (\d+)\)", str(err))}
+        ctx.hit("error_message_compared")
+        check(said == named, "loading-error-message-inexact",
+              "the error's text names %r, its app_map %r" %
+              (sorted(said)[:8], sorted(named)[:8]), **opts)
         if named != not_loaded:
             msg = ("SpiNNakerLoadingError names %r, cores actually not "
                    "loaded: %r" % (sorted(named)[:6], sorted(not_loaded)[:6]))
